@@ -556,7 +556,7 @@ def check_property(prop, tier, seed, replay=None):
         # on the unsanitised build under valgrind memcheck
         try:
             plain = build("plain")
-            n = int(os.environ.get("VERIF_VALGRIND_PLANS", 42 if tier == "quick" else 600))
+            n = int(os.environ.get("VERIF_VALGRIND_PLANS", 28 if tier == "quick" else 600))
             vdir = os.path.join(outdir, "valgrind")
             os.makedirs(vdir, exist_ok=True)
 
